@@ -373,11 +373,13 @@ func wallOnce(pattern, input string, d time.Duration, opts regexp2.RegexOptions)
 	_, err := re.MatchString(input)
 	el := time.Since(start)
 	close(stop)
-	if *worst > 20*time.Millisecond {
-		return "", false // scheduling stall: inconclusive
-	}
 	if err == nil {
-		return fmt.Sprintf("catastrophic match %q did not time out with timeout %v (returned after %v)", pattern, d, el), true
+		// every pattern of this leg needs far more CPU time than any timeout used here, so a normal
+		// return means the deadline was never honoured: no scheduling stall explains that
+		return fmt.Sprintf("long-running match %q did not time out with timeout %v (returned after %v)", pattern, d, el), true
+	}
+	if *worst > 20*time.Millisecond {
+		return "", false // scheduling stall: the timing bounds below are inconclusive
 	}
 	if canon.ErrClass(err) != "timeout" {
 		return "unexpected error " + err.Error(), true
@@ -400,6 +402,9 @@ func TestPropWallClock(t *testing.T) {
 		{`(x+x+)+y`, strings.Repeat("x", 40), 0},
 		{`(?:a|aa)+$`, strings.Repeat("a", 45) + "b", regexp2.RightToLeft &^ regexp2.RightToLeft},
 		{`^(\w+\s?)*$`, strings.Repeat("word ", 12) + "!", 0},
+		// long-running without ever backtracking (27e6 forward iterations through atomic counted loops):
+		// the deadline must also be polled on forward progress
+		{`(?:(?>(?:(?>(?:\b|x){300})){300})){300}`, "a", 0},
 	}
 	n := 1
 	if h.Thorough() {
